@@ -214,7 +214,13 @@ def draw_op(draw, cfg, nxt, allow_blocks=True, allow_empty=False, max_files=5, m
             return bg
         return g
 
-    def draw_len():
+    def draw_len(pos=None):
+        if pos is not None and draw(st.integers(0, 5)) == 0:
+            # exactly up to the last slot of this file, or of one of the next two files
+            k = cfg["start"] + pos
+            hi = rfmodel.window(cfg, rfmodel.file_ms(cfg, k) + cfg["F"] * draw(st.integers(0, 2)))[1]
+            if 0 < hi - k <= cap:
+                return hi - k
         ln = draw(st.one_of(st.sampled_from(_len_choices(spf)), st.integers(1, max(1, min(cap, 3 * spf)))))
         return max(1, min(ln, cap))
 
@@ -223,7 +229,7 @@ def draw_op(draw, cfg, nxt, allow_blocks=True, allow_empty=False, max_files=5, m
     if not use_blocks:
         if allow_empty and draw(st.integers(0, 14)) == 0:
             return {"op": "w", "idx": nxt + gap, "len": 0}, nxt
-        ln = draw_len()
+        ln = draw_len(nxt + gap)
         return {"op": "w", "idx": nxt + gap, "len": ln}, nxt + gap + ln
     nb = draw(st.integers(1, max_blocks))
     g, dd = [], []
@@ -231,14 +237,14 @@ def draw_op(draw, cfg, nxt, allow_blocks=True, allow_empty=False, max_files=5, m
     pos = nxt + gap
     compact = draw(st.integers(0, 3)) == 0  # several short blocks with short gaps: they stay inside one (open) file
     for bi in range(nb):
-        ln = draw(st.integers(1, 3)) if compact else draw_len()
+        ln = draw(st.integers(1, 3)) if compact else draw_len(pos)
         g.append(pos)
         dd.append(off)
         off += ln
         pos += ln
         if bi + 1 < nb:
-            gg = draw(st.integers(1, 3)) if compact else draw_gap(pos)
-            pos += max(1, gg)  # consecutive blocks must be separated by >= 1 (else same block)
+            gg = draw(st.integers(0, 3)) if compact else draw_gap(pos)
+            pos += max(0, gg)  # a gap of 0 is legal: two blocks of one call that happen to be adjacent (they read back as one)
     return {"op": "b", "len": off, "g": g, "d": dd}, pos
 
 
@@ -294,7 +300,7 @@ def draw_call_forms(draw, case):
         f = draw(st.sampled_from(ARGFORMS))
         if f != "plain":
             op["argform"] = f
-    case["end"] = draw(st.sampled_from(["close", "close", "with", "del"]))
+    case["end"] = draw(st.sampled_from(["close", "close", "with", "del", "withexc", "withexc"]))
     if draw(st.integers(0, 2)) == 0:
         case["sibling"] = draw_sibling(draw, case["cfg"])
     return case
